@@ -16,3 +16,338 @@ Print Assumptions C05_forward_sound.
 Theorem C05_valid_prefix : forall o l e, In e (take_valid o l) -> In e l /\ item_valid o e = true.
 Proof. exact SysProofs.take_valid_sound. Qed.
 Print Assumptions C05_valid_prefix.
+
+(* ======================================================================================
+   Full characterisation (B/IterOrderProofs.v, B/IterSpecProofs.v).  Everything below is about
+   the functions of B/Iter.v that the correspondence check evaluates against iterator.go
+   (fwd_items, rev_items, take_valid, seek_ge, seek_le_rev, iterate) and Sys.txn_iterate.
+   The stream m is any list strictly sorted by ent_cmp (key ascending, version descending; so
+   no key@version twice) — `C05_merged_sorted`: the merged view of a well-formed tree is one.
+   Auxiliary specification functions (right-hand sides only):
+     hidden m e  : some non-skipped entry of m has e's key and a larger version
+     emit m e    : e passes the parseItem checks (skip_common = false) and, unless AllVersions,
+                   is not hidden and is neither deleted nor expired
+     cut m       : m up to the first entry outside Prefix (forward only)
+     first_nonskip m k : the first entry of m with key k that passes skip_common
+   ====================================================================================== *)
+From Verif Require Import Compact CompactProofs EntOrderProofs IterOrderProofs IterSpecProofs.
+From Verif Require GetProofs.
+From Coq Require Import Sorting.Sorted.
+
+(* ---- A.2 / B: the forward scan, both modes, as one equation ---- *)
+Theorem C05_forward_is_spec : forall o rts now banned m,
+  ssorted m -> fwd_items o rts now banned m None = filter (emit o rts now banned m) (cut o m).
+Proof. exact fwd_items_spec. Qed.
+Print Assumptions C05_forward_is_spec.
+
+(* A.1: strictly increasing byte order of the keys — every key at most once *)
+Theorem C05_forward_keys_increasing : forall o rts now banned m,
+  io_all o = false -> ssorted m -> StronglySorted klt (map e_key (fwd_items o rts now banned m None)).
+Proof. exact fwd_items_keys_increasing. Qed.
+Print Assumptions C05_forward_keys_increasing.
+
+(* A.2 as membership: yielded iff inside the Prefix cut, not skipped, not hidden, live *)
+Theorem C05_forward_in_iff : forall o rts now banned m e,
+  io_all o = false -> ssorted m ->
+  (In e (fwd_items o rts now banned m None) <->
+   In e (cut o m) /\ skip_common o rts banned e = false /\ hidden o rts banned m e = false /\
+   deleted_or_expired e now = false).
+Proof. exact fwd_items_in_iff. Qed.
+Print Assumptions C05_forward_in_iff.
+
+(* "inside the Prefix cut" = no entry up to and including e is outside the prefix *)
+Theorem C05_cut_in_iff : forall o (m : src) e,
+  In e (cut o m) <-> exists pre post, m = pre ++ e :: post /\ (forall y, In y (pre ++ [e]) -> stream_has_prefix o y = true).
+Proof. intros o m e. exact (take_while_in_iff (stream_has_prefix o) m e). Qed.
+Print Assumptions C05_cut_in_iff.
+
+(* "not hidden" = the FIRST non-skipped entry of its key in the stream, i.e. the newest version
+   that passes the readTs / SinceTs / internal-key / banned checks *)
+Theorem C05_not_hidden_is_first : forall o rts banned pre e post,
+  ssorted (pre ++ e :: post) ->
+  (hidden o rts banned (pre ++ e :: post) e = false <->
+   forall e', In e' pre -> e_key e' = e_key e -> skip_common o rts banned e' = true).
+Proof. exact hidden_false_first. Qed.
+Print Assumptions C05_not_hidden_is_first.
+
+(* soundness and completeness per key (no Prefix cut): e is yielded iff it is the first
+   non-skipped entry of its key and live; every key whose newest non-skipped version is live
+   appears; the item found under key k is exactly that version *)
+Theorem C05_forward_in_iff_first : forall o rts now banned m e,
+  io_all o = false -> ssorted m -> cut o m = m ->
+  (In e (fwd_items o rts now banned m None) <->
+   first_nonskip o rts banned m (e_key e) = Some e /\ deleted_or_expired e now = false).
+Proof. exact fwd_items_in_iff_first. Qed.
+Print Assumptions C05_forward_in_iff_first.
+
+Theorem C05_forward_complete : forall o rts now banned m k e,
+  io_all o = false -> ssorted m -> cut o m = m ->
+  first_nonskip o rts banned m k = Some e -> deleted_or_expired e now = false ->
+  In e (fwd_items o rts now banned m None).
+Proof. exact fwd_items_complete. Qed.
+Print Assumptions C05_forward_complete.
+
+Theorem C05_forward_lookup : forall o rts now banned m k,
+  io_all o = false -> ssorted m -> cut o m = m ->
+  find (fun e => bytes_eqb (e_key e) k) (fwd_items o rts now banned m None) =
+  match first_nonskip o rts banned m k with
+  | Some e => if deleted_or_expired e now then None else Some e
+  | None => None
+  end.
+Proof. exact fwd_items_lookup. Qed.
+Print Assumptions C05_forward_lookup.
+
+Theorem C05_cut_trivial : forall o m, io_reverse o = true \/ io_prefix o = [] -> cut o m = m.
+Proof. intros o m [H|H]; [now apply cut_id_reverse|now apply cut_id_noprefix]. Qed.
+Print Assumptions C05_cut_trivial.
+
+(* ---- B: AllVersions, forward: every non-skipped entry (delete markers and expired entries
+   included), in stream order = per key newest first ---- *)
+Theorem C05_all_versions_forward : forall o rts now banned m,
+  io_all o = true ->
+  fwd_items o rts now banned m None = filter (fun e => negb (skip_common o rts banned e)) (cut o m).
+Proof. exact fwd_items_all. Qed.
+Print Assumptions C05_all_versions_forward.
+
+Theorem C05_forward_keeps_stream_order : forall o rts now banned m,
+  ssorted m -> ssorted (fwd_items o rts now banned m None).
+Proof. exact fwd_items_sorted. Qed.
+Print Assumptions C05_forward_keeps_stream_order.
+
+(* ---- C: reverse (the stream is read backwards: rev m), both modes ---- *)
+Theorem C05_reverse_is_spec : forall o rts now banned m,
+  ssorted m -> rev_items o rts now banned (rev m) None = rev (filter (emit o rts now banned m) m).
+Proof. exact rev_items_spec. Qed.
+Print Assumptions C05_reverse_is_spec.
+
+Theorem C05_all_versions_reverse : forall o rts now banned m,
+  io_all o = true -> ssorted m ->
+  rev_items o rts now banned (rev m) None = rev (filter (fun e => negb (skip_common o rts banned e)) m).
+Proof. exact rev_items_all. Qed.
+Print Assumptions C05_all_versions_reverse.
+
+(* reverse yields the forward result backwards (AllVersions: per key OLDEST first) *)
+Theorem C05_reverse_is_rev_forward : forall o rts now banned m,
+  ssorted m -> cut o m = m ->
+  rev_items o rts now banned (rev m) None = rev (fwd_items o rts now banned m None).
+Proof. exact rev_items_rev_fwd. Qed.
+Print Assumptions C05_reverse_is_rev_forward.
+
+Theorem C05_iterate_reverse_is_rev : forall o rts now banned m,
+  io_reverse o = false -> io_prefix o = [] -> io_prefix_is_key o = false -> ssorted m ->
+  iterate (set_reverse true o) rts now banned m [] = rev (iterate o rts now banned m []).
+Proof. exact iterate_reverse_is_rev. Qed.
+Print Assumptions C05_iterate_reverse_is_rev.
+
+Theorem C05_reverse_keys_decreasing : forall o rts now banned m,
+  io_reverse o = false -> io_all o = false -> io_prefix o = [] -> io_prefix_is_key o = false -> ssorted m ->
+  StronglySorted (fun a b => klt b a) (map e_key (iterate (set_reverse true o) rts now banned m [])).
+Proof. exact iterate_reverse_keys_decreasing. Qed.
+Print Assumptions C05_reverse_keys_decreasing.
+
+(* ---- A.3 Seek ---- *)
+(* the cursor: Seek lands on the first entry >= (k, readTs) / in reverse on the first <= (k, 0) *)
+Theorem C05_seek_ge_is_suffix : forall m k ts, ssorted m -> seek_ge m k ts = filter (key_le k ts) m.
+Proof. exact seek_ge_filter. Qed.
+Print Assumptions C05_seek_ge_is_suffix.
+Theorem C05_seek_le_rev_is_suffix : forall m k,
+  ssorted m -> seek_le_rev (rev m) k = filter (fun e => le_key (e_key e) k) (rev m).
+Proof. intros m k H. apply seek_le_rev_filter. now apply ssorted_rev_dsorted. Qed.
+Print Assumptions C05_seek_le_rev_is_suffix.
+
+(* forward Seek(k): exactly the items of the un-seeked iteration whose key is >= k, provided k is
+   not below the Prefix (always true without Prefix: kle [] k) *)
+Theorem C05_seek_forward : forall o rts now banned m seek,
+  io_reverse o = false -> io_prefix_is_key o = false -> ssorted m -> kle (io_prefix o) seek ->
+  iterate o rts now banned m seek = filter (fbound seek) (iterate o rts now banned m []).
+Proof. exact iterate_seek_forward. Qed.
+Print Assumptions C05_seek_forward.
+
+(* without that proviso the statement is FALSE of iterator.go as coded: after Seek(k), k below the
+   Prefix, the loop `for iitr.Valid() && hasPrefix(it)` stops on the first entry (which is outside
+   the prefix) and the iterator is exhausted although keys >= k inside the Prefix exist.
+   Full-strength statement refuted:
+     forall o m seek, forward -> ssorted m ->
+       iterate o m seek = filter (has Prefix && key >= seek) (iterate (no_prefix o) m [])        *)
+Theorem C05_seek_below_prefix_refuted :
+  exists o rts now m seek,
+    io_reverse o = false /\ io_prefix_is_key o = false /\ ssorted m /\
+    iterate o rts now (fun _ => false) m seek = [] /\
+    filter (fun e => is_prefix (io_prefix o) (e_key e) && fbound seek e)
+           (iterate (no_prefix o) rts now (fun _ => false) m []) <> [].
+Proof. exact iterate_seek_below_prefix_refuted. Qed.
+Print Assumptions C05_seek_below_prefix_refuted.
+
+(* reverse Seek(k) (no Prefix): the items of the un-seeked reverse iteration with key <= k *)
+Theorem C05_seek_reverse : forall o rts now banned m seek,
+  io_reverse o = true -> io_prefix o = [] -> io_prefix_is_key o = false -> ssorted m ->
+  iterate o rts now banned m seek = filter (rbound seek) (iterate o rts now banned m []).
+Proof. exact iterate_seek_reverse. Qed.
+Print Assumptions C05_seek_reverse.
+
+(* ---- A.4 Prefix ---- *)
+(* keys with a common prefix are contiguous in byte order (initial segment of the keys >= p) *)
+Theorem C05_prefix_contiguous : forall p a b, kle p a -> kle a b -> is_prefix p b = true -> is_prefix p a = true.
+Proof. exact prefix_block. Qed.
+Print Assumptions C05_prefix_contiguous.
+
+(* Prefix = p: exactly the items of the unrestricted iteration whose key has prefix p
+   (iteration stops exactly at the prefix boundary, and starts exactly at it) *)
+Theorem C05_prefix_forward : forall o rts now banned m,
+  io_reverse o = false -> io_prefix_is_key o = false -> ssorted m ->
+  iterate o rts now banned m [] =
+  filter (fun e => is_prefix (io_prefix o) (e_key e)) (iterate (no_prefix o) rts now banned m []).
+Proof. exact iterate_prefix_forward. Qed.
+Print Assumptions C05_prefix_forward.
+
+(* Seek and Prefix together (partial: the start position is not below the Prefix) *)
+Theorem C05_iterate_forward_partial : forall o rts now banned m seek,
+  io_reverse o = false -> io_prefix_is_key o = false -> ssorted m ->
+  kle (io_prefix o) (match seek with [] => io_prefix o | _ => seek end) ->
+  iterate o rts now banned m seek =
+  filter (fun e => is_prefix (io_prefix o) (e_key e) && fbound (match seek with [] => io_prefix o | _ => seek end) e)
+         (filter (emit o rts now banned m) m).
+Proof. exact iterate_fwd_spec. Qed.
+Print Assumptions C05_iterate_forward_partial.
+
+(* reverse with a Prefix, as coded (hasPrefix is not consulted in reverse; Valid() cuts): for a
+   start key inside the Prefix, the items with the prefix and key <= start.  Without Seek the
+   start key is the Prefix itself, so only the key equal to the Prefix can be yielded — the
+   documented behaviour ("append 0xFF to the prefix and Seek there") *)
+Theorem C05_iterate_reverse_as_coded : forall o rts now banned m seek,
+  io_reverse o = true -> io_prefix_is_key o = false -> ssorted m ->
+  is_prefix (io_prefix o) (match seek with [] => io_prefix o | _ => seek end) = true ->
+  iterate o rts now banned m seek =
+  filter (fun e => is_prefix (io_prefix o) (e_key e) && rbound (match seek with [] => io_prefix o | _ => seek end) e)
+         (rev (filter (emit o rts now banned m) m)).
+Proof. exact iterate_rev_spec. Qed.
+Print Assumptions C05_iterate_reverse_as_coded.
+
+(* NewKeyIterator(key) (Prefix = key, prefixIsKey; the Go code also sets AllVersions): exactly
+   the emitted entries of that key — with AllVersions all its non-skipped versions, newest first *)
+Theorem C05_key_iterator : forall o rts now banned m,
+  io_reverse o = false -> io_prefix_is_key o = true -> ssorted m ->
+  iterate o rts now banned m [] =
+  filter (fun e => bytes_eqb (e_key e) (io_prefix o)) (filter (emit o rts now banned m) m).
+Proof. exact iterate_key_spec. Qed.
+Print Assumptions C05_key_iterator.
+
+Theorem C05_emit_all_versions : forall o rts now banned m e,
+  io_all o = true -> emit o rts now banned m e = negb (skip_common o rts banned e).
+Proof. exact emit_all. Qed.
+Print Assumptions C05_emit_all_versions.
+
+(* ---- SinceTs, readTs, internal keys, banned namespaces: every item of every iteration (any
+   direction, mode, Prefix, seek key) passed the parseItem checks and Valid() ---- *)
+Theorem C05_items_pass_checks : forall o rts now banned m seek e,
+  ssorted m -> In e (iterate o rts now banned m seek) ->
+  In e m /\ skip_common o rts banned e = false /\ item_valid o e = true /\
+  (io_all o = false -> deleted_or_expired e now = false).
+Proof. exact iterate_sound. Qed.
+Print Assumptions C05_items_pass_checks.
+
+Theorem C05_checks_meaning : forall o rts banned e,
+  skip_common o rts banned e = false <->
+  (io_internal o = true \/ is_internal e = false) /\ e_ver e <= rts /\
+  (io_since o = 0 \/ io_since o < e_ver e) /\ (is_internal e = true \/ banned (e_key e) = false).
+Proof. exact skip_common_false_iff. Qed.
+Print Assumptions C05_checks_meaning.
+
+(* ---- D: the tie to the tree and to the MVCC specification ---- *)
+Theorem C05_merged_sorted : forall d, GetProofs.lsm_wf d -> ssorted (merged d).
+Proof. exact merged_sorted. Qed.
+Print Assumptions C05_merged_sorted.
+
+(* on a well-formed tree a default forward iteration returns, in strictly increasing key order,
+   exactly what Get returns key by key *)
+Theorem C05_iterate_is_get : forall d o rts now,
+  GetProofs.lsm_wf d -> nodup_kv (GetProofs.all_entries d) ->
+  io_reverse o = false -> io_all o = false -> io_prefix o = [] -> io_prefix_is_key o = false -> io_since o = 0 ->
+  let l := iterate o rts now (fun _ => false) (merged d) [] in
+  StronglySorted klt (map e_key l) /\
+  (forall e, In e l <-> allowed o (e_key e) = true /\ vis_of now (db_get d (e_key e) rts) = Some e).
+Proof. exact iterate_is_get. Qed.
+Print Assumptions C05_iterate_is_get.
+
+Theorem C05_iterate_lookup_is_get : forall d o rts now k,
+  GetProofs.lsm_wf d -> nodup_kv (GetProofs.all_entries d) ->
+  io_reverse o = false -> io_all o = false -> io_prefix o = [] -> io_prefix_is_key o = false -> io_since o = 0 ->
+  find (fun e => bytes_eqb (e_key e) k) (iterate o rts now (fun _ => false) (merged d) []) =
+  if allowed o k then vis_of now (db_get d k rts) else None.
+Proof. exact iterate_lookup_is_get. Qed.
+Print Assumptions C05_iterate_lookup_is_get.
+
+(* every reachable state (normal mode, sequential histories, no drop prefixes — as C01): a
+   transaction without pending writes, reading at or above every discard timestamp used so far,
+   iterating forward with default options: the result is THE list, in strictly increasing key
+   order, of the entries e with Spec.vis (applied writes) (e_key e) readTs now = Some e, over all
+   keys the iterator may show (`allowed`: not `!badger!`-prefixed unless InternalAccess).
+   Iteration returns exactly what Get returns for every key, in order, and nothing else. *)
+From Verif Require Import Sys SysReopen SysTree.
+From Verif Require TreeSpecProofs.
+Theorem C05_forward_equals_spec : forall detect nkeep nlevels next ops,
+  (0 < nlevels)%nat -> Forall op_plain ops ->
+  let s := snd (exec_tree (init_sys false detect nkeep nlevels next) ops 0) in
+  forall x o,
+    pend_src x = [] ->
+    io_reverse o = false -> io_all o = false -> io_prefix o = [] -> io_prefix_is_key o = false -> io_since o = 0 ->
+    TreeSpecProofs.max_discard ops <= x_read x -> TreeSpecProofs.max_now ops <= s_now s ->
+    let l := txn_iterate s x o [] in
+    let shown := fun e => allowed o (e_key e) = true /\ vis (s_writes s) (e_key e) (x_read x) (s_now s) = Some e in
+    StronglySorted klt (map e_key l) /\
+    (forall e, In e l <-> shown e) /\
+    (forall l', StronglySorted klt (map e_key l') -> (forall e, In e l' <-> shown e) -> l' = l).
+Proof. exact forward_equals_spec. Qed.
+Print Assumptions C05_forward_equals_spec.
+
+Theorem C05_no_pending_cases : forall x, x_update x = false \/ x_pend x = [] -> pend_src x = [].
+Proof. intros x [H|H]; [now apply pend_src_readonly|now apply pend_src_nopending]. Qed.
+Print Assumptions C05_no_pending_cases.
+
+(* ---- the hypotheses are satisfiable, on a stream with keys that are prefixes of one another,
+   0x00 and 0xFF bytes, several versions, a version above readTs, a delete marker, an expired
+   entry and an internal key ---- *)
+Definition ex_stream : src :=
+  [ mkE [1] 7 0 0 0 [70];           (* above readTs 6 *)
+    mkE [1] 5 1 0 0 [];             (* delete marker: key [1] is invisible *)
+    mkE [1] 3 0 0 0 [30];
+    mkE [1; 0] 4 0 0 0 [40];
+    mkE [1; 0] 2 0 0 0 [20];
+    mkE [1; 0; 255] 6 0 0 0 [60];
+    mkE [1; 255] 1 0 0 9 [10];      (* expires at 9: expired at now = 10 *)
+    mkE [1; 255; 0] 2 0 0 0 [21];
+    mkE [2] 3 0 0 0 [31];
+    mkE (c_badgerPrefix ++ [1]) 1 0 0 0 [11] ].
+Definition ex_default : iopts := mkIO false false [] false 0 false.
+Definition nobanned : bytes -> bool := fun _ => false.
+
+Example C05_ex_stream_sorted : ssorted ex_stream.
+Proof. repeat constructor. Qed.
+
+Example C05_ex_forward :
+  iterate ex_default 6 10 nobanned ex_stream [] =
+  [mkE [1; 0] 4 0 0 0 [40]; mkE [1; 0; 255] 6 0 0 0 [60]; mkE [1; 255; 0] 2 0 0 0 [21]; mkE [2] 3 0 0 0 [31]].
+Proof. vm_compute. reflexivity. Qed.
+
+Example C05_ex_reverse :
+  iterate (set_reverse true ex_default) 6 10 nobanned ex_stream [] =
+  rev (iterate ex_default 6 10 nobanned ex_stream []).
+Proof. vm_compute. reflexivity. Qed.
+
+Example C05_ex_prefix_and_seek :
+  iterate (mkIO false false [1; 0] false 0 false) 6 10 nobanned ex_stream [] =
+    [mkE [1; 0] 4 0 0 0 [40]; mkE [1; 0; 255] 6 0 0 0 [60]] /\
+  kle [1; 0] [1; 0; 1] /\
+  iterate (mkIO false false [1; 0] false 0 false) 6 10 nobanned ex_stream [1; 0; 1] = [mkE [1; 0; 255] 6 0 0 0 [60]] /\
+  iterate (set_reverse true ex_default) 6 10 nobanned ex_stream [1; 255] =
+    [mkE [1; 0; 255] 6 0 0 0 [60]; mkE [1; 0] 4 0 0 0 [40]].
+Proof. vm_compute. repeat split; reflexivity || discriminate. Qed.
+
+Example C05_ex_all_versions_and_key_iterator :
+  iterate (mkIO false true [] false 0 false) 6 10 nobanned ex_stream [] =
+    filter (fun e => negb (skip_common (mkIO false true [] false 0 false) 6 nobanned e)) ex_stream /\
+  iterate (mkIO false true [1] true 0 false) 6 10 nobanned ex_stream [] =
+    [mkE [1] 5 1 0 0 []; mkE [1] 3 0 0 0 [30]] /\
+  iterate (mkIO false true [] false 4 true) 6 10 nobanned ex_stream [] =
+    [mkE [1] 5 1 0 0 []; mkE [1; 0; 255] 6 0 0 0 [60]].
+Proof. vm_compute. repeat split; reflexivity. Qed.
